@@ -328,8 +328,8 @@ func genPlanOpt(seed uint64, prop string, cold bool) *Plan {
 	if prop != "C14" && r.chance(0.5) {
 		nTasks = 1 // plain sequential histories
 	}
-	if cold && prop == "C14" && nTasks == 1 {
-		nTasks = 2 + r.intn(3)
+	if cold && nTasks == 1 && (prop == "C14" || r.chance(0.7)) {
+		nTasks = 2 + r.intn(3) // first-use windows need company
 	}
 	maxOps := []int{3, 6, 12, 25, 40}[r.intn(5)]
 
@@ -634,6 +634,8 @@ func genPlanOpt(seed uint64, prop string, cold bool) *Plan {
 		}
 		p.PoolDec = append(p.PoolDec, d)
 	}
+	p.Slab = r.chance(0.35)
+	p.LoudObs = cold && prop != "C14" && r.chance(0.6)
 	if hot {
 		p.Policy = "hot-" + p.Policy
 	}
@@ -682,8 +684,8 @@ func genRatingArg(r *rng) float64 {
 func genHot(r *rng, p *Plan) (nTasks, nParse int) {
 	p.Policy = "hot"
 	ver := pickVer(r, 0.3)
-	nTasks = 3 + r.intn(6) // 3..8
-	nVals := 2 + r.intn(2)
+	nTasks = 3 + r.intn(6)                    // 3..8
+	nVals := []int{2, 3, 3, 8, 48}[r.intn(5)] // many values: slot collisions in hashed caches (birthday)
 	var vals []string
 	for i := 0; i < nVals; i++ {
 		vals = append(vals, genValid(r, ver))
@@ -697,9 +699,13 @@ func genHot(r *rng, p *Plan) (nTasks, nParse int) {
 			p.Cells = append(p.Cells, CellSpec{Ver: ver, Mode: mPriv, Owner: t, Init: vals[r.intn(len(vals))]})
 		}
 	}
-	if r.chance(0.5) {
-		p.Cells = append(p.Cells, CellSpec{Ver: ver, Mode: []string{mRO, mROHeap}[r.intn(2)], Owner: -1, Init: vals[0]})
+	// the values also live in shared read-only cells; tasks copy them into
+	// their own objects now and then, so that all values stay in play
+	firstVal := len(p.Cells)
+	for i := range vals {
+		p.Cells = append(p.Cells, CellSpec{Ver: ver, Mode: []string{mRO, mROHeap}[r.intn(2)], Owner: -1, Init: vals[i]})
 	}
+	pCopy := []float64{0, 0.15, 0.4}[r.intn(3)]
 	sp := specs[ver]
 	for t := 0; t < nTasks; t++ {
 		var ops []Op
@@ -708,8 +714,11 @@ func genHot(r *rng, p *Plan) (nTasks, nParse int) {
 		for len(ops) < perTask {
 			k := kinds[r.intn(len(kinds))]
 			c := own[r.intn(2)]
-			if len(p.Cells) > 2*nTasks && r.chance(0.25) && k != kSet {
-				c = len(p.Cells) - 1
+			if r.chance(pCopy) {
+				ops = append(ops, Op{K: kCopy, C: firstVal + r.intn(len(vals)), D: c})
+			}
+			if r.chance(0.2) && k != kSet {
+				c = firstVal + r.intn(len(vals)) // observe the shared object itself
 			}
 			op := Op{K: k, C: c, D: -1}
 			switch k {
